@@ -382,6 +382,12 @@ func (w *refWalker) walk(body ast.Node) {
 					ao = info.Uses[f.Sel]
 				}
 				if af, ok := ao.(*types.Func); ok {
+					// a named comparator handed over as a value (extreme(points, greaterThan)): its one
+					// comparison is counted where the value is called
+					if sg, ok := af.Type().(*types.Signature); ok && sg.Recv() == nil && sg.Params().Len() == 2 && sg.Results().Len() == 1 &&
+						isFloatBasic(sg.Params().At(0).Type()) && isFloatBasic(sg.Params().At(1).Type()) && types.Identical(sg.Results().At(0).Type(), types.Typ[types.Bool]) {
+						continue
+					}
 					w.follow(af)
 				}
 			}
@@ -445,6 +451,22 @@ func findRefBody(pk *packages.Package, name string) ast.Node {
 			if got == recv {
 				return fd
 			}
+		}
+	}
+	// the function was turned into a method (or a method into a function): the only declaration of that name
+	if pk.PkgPath != pkgPromqlRef {
+		var only *ast.FuncDecl
+		n := 0
+		for _, f := range pk.Syntax {
+			for _, d := range f.Decls {
+				if fd, ok := d.(*ast.FuncDecl); ok && fd.Name.Name == fn && fd.Body != nil {
+					only = fd
+					n++
+				}
+			}
+		}
+		if n == 1 {
+			return only
 		}
 	}
 	return nil
@@ -735,6 +757,9 @@ func ruleRefAggArms(p *core.Program, rule string) []core.Obligation {
 			continue
 		}
 		ra := caseBodies(repoFn, func(e ast.Expr) bool {
+			if se, ok := e.(*ast.SelectorExpr); ok && se.Sel.Name == tok {
+				return true // switch on the parser's token constant instead of its spelling
+			}
 			bl, ok := e.(*ast.BasicLit)
 			return ok && bl.Kind == token.STRING && bl.Value == `"`+spelling+`"`
 		})
@@ -776,6 +801,9 @@ func ruleRefAggArms(p *core.Program, rule string) []core.Obligation {
 				}
 			}
 			ra := caseBodies(vecFn, func(e ast.Expr) bool {
+				if se, ok := e.(*ast.SelectorExpr); ok && se.Sel.Name == tok {
+					return true
+				}
 				bl, ok := e.(*ast.BasicLit)
 				return ok && bl.Kind == token.STRING && bl.Value == `"`+spelling+`"`
 			})
